@@ -279,6 +279,20 @@ func cmdCheck(args []string) int {
 			funcsUnder = append(funcsUnder, pk+"::"+key+" (implicit: entered with no lock held)")
 		}
 	}
+	if lvcs, err := s.lemmaVCs(); err != nil {
+		stale = append(stale, err.Error())
+	} else {
+		for _, lvc := range lvcs {
+			if *only != "" && !strings.Contains(lvc.contract.Key, *only) {
+				continue
+			}
+			if !lemmaUsed(lvc, vcs) {
+				continue
+			}
+			vcs = append(vcs, lvc)
+			funcsUnder = append(funcsUnder, lvc.contract.Pkg+"::"+lvc.contract.Key+" (proved by induction, then used as an axiom)")
+		}
+	}
 	if len(stale) > 0 {
 		for _, m := range stale {
 			fmt.Printf("STALE-CONTRACT property=%s %s\n", *prop, m)
@@ -522,3 +536,29 @@ func cmdCheck(args []string) int {
 	}
 	return 0
 }
+
+// lemmaUsed reports whether a spec function mentioned by the lemma occurs in some verification condition of this run.
+func lemmaUsed(l *FnVC, vcs []*FnVC) bool {
+	syms := map[string]bool{}
+	for _, it := range l.items {
+		for _, t := range smtTokens(it.Text) {
+			if strings.HasPrefix(t, "sf_") || strings.HasPrefix(t, "|sf_") {
+				syms[t] = true
+			}
+		}
+	}
+	for _, vc := range vcs {
+		if strings.HasPrefix(vc.contract.Key, "lemma:") {
+			continue
+		}
+		for _, it := range vc.items {
+			for _, t := range smtTokens(it.Text) {
+				if syms[t] {
+					return true
+				}
+			}
+		}
+	}
+	return false
+}
+
